@@ -235,15 +235,22 @@ class Transport:
 
 
 class Lock:
+    """FIFO lock, as asyncio.Lock and trio.Lock are: waiters acquire it in the order they asked."""
+
     def __init__(self) -> None:
         self.held = False
+        self.next_ticket = 0
+        self.serving = 0
 
     async def __aenter__(self):
-        await Until(lambda: not self.held, "lock")
+        ticket = self.next_ticket
+        self.next_ticket += 1
+        await Until(lambda: not self.held and self.serving == ticket, "lock")
         self.held = True
 
     async def __aexit__(self, *a):
         self.held = False
+        self.serving += 1
 
 
 EOF_MARK = object()
@@ -294,6 +301,8 @@ class ProtoRig:
                         t.fail_after -= 1
                     t.written += event.data
                     t.writes += 1
+                    if self.worker == "trio":
+                        await Checkpoint()          # trio's send_all always yields to the scheduler
                     await Until(lambda: not t.paused or t.failed or t.closed, "drain")
         elif isinstance(event, Closed):
             self.events.append(("Closed", len(self.transport.written)))
